@@ -181,8 +181,11 @@ inline std::vector<Op> decodeWalk(Src &s, int maxOps) {
     }
     return v;
 }
-inline std::string runWalk(const std::vector<Op> &ops, int queueLen, StepCheck chk, Hist *h = nullptr) {
+// mode: 0 plain; 1 the control callback returns SCPI_RES_ERR; 2..4 the control callback re-enters the library when a service
+// request is announced (fixture.hpp controlAction 1..3) - only for checks that are invariants of the state (C11)
+inline std::string runWalk(const std::vector<Op> &ops, int queueLen, StepCheck chk, Hist *h = nullptr, int mode = 0) {
     InstCfg k = statusCfg(queueLen);
+    if (mode == 1) k.controlReturns = 1; else if (mode >= 2) k.controlAction = mode - 1;
     Inst I(k);
     Regs a = readRegs(I);
     std::vector<Op> done;
@@ -192,7 +195,7 @@ inline std::string runWalk(const std::vector<Op> &ops, int queueLen, StepCheck c
         done.push_back(ops[i]);
         std::string m = chk(a, ops[i], b, I);
         if (m.empty() && !I.invariant.empty()) m = I.invariant;
-        if (!m.empty()) return m + fmt(" at step %zu of [", i) + opsText(done) + "] state [" + regsText(b) + "]";
+        if (!m.empty()) return m + fmt(" at step %zu of [", i) + opsText(done) + "] state [" + regsText(b) + "]" + (mode == 1 ? " (control callback returns SCPI_RES_ERR)" : mode >= 2 ? fmt(" (control callback re-enters the library: action %d)", mode - 1) : "");
         if (h) h->step((int) i, a, ops[i], b);
         a = b;
     }
